@@ -33,6 +33,12 @@ HIST_ALPHABET = [
     "gen/function",
     "parse.docstring/google_trailing_section",
     "parse.docstring/two_announcements",
+    "parse.docstring/numpydoc_raises_after_default",
+    "parse.docstring/google_leading_no_default",
+    "emit.argparse/return_with_prose",
+    "emit.argparse/return_default_no_prose",
+    "parse.class/empty_docstring",
+    "parse.function/empty_docstring",
 ]
 
 
@@ -51,9 +57,14 @@ def run_battery(seed, k_max):
     return order, res
 
 
+CORE = 7  # the first CORE conversions of HIST_ALPHABET get one more level of depth
+
+
 class _Seqs(core.Space):
     def __init__(self, n, maxlen):
-        self.items = [list(t) for L in range(1, maxlen + 1) for t in itertools.product(range(n), repeat=L)]
+        """all sequences up to ``maxlen - 1`` over the whole alphabet, plus length ``maxlen`` over the core conversions"""
+        self.items = [list(t) for L in range(1, maxlen) for t in itertools.product(range(n), repeat=L)]
+        self.items += [list(t) for t in itertools.product(range(CORE), repeat=maxlen)]
 
     def __len__(self):
         return len(self.items)
@@ -70,8 +81,7 @@ class C12(core.Check):
     level = "exploration"
     rule = ("(a) the conversion battery is executed in a fresh interpreter for every hash seed of a covering set (all k! "
             "iteration orders of the undocumented-name sets witnessed, k<=3 quick / k<=4 thorough) plus random seeds and "
-            "all digests are compared with seed 0; (b) every sequence with repetition over 9 conversions up to length 3 "
-            "(thorough 4) runs in a child forked from a pristine process and each call is compared with its solo output; "
+            "all digests are compared with seed 0; (b) every sequence with repetition over 15 conversions up to length 2 (thorough 3), and of length 3 (thorough 4) over the 7 core conversions, runs in a child forked from a pristine process and each call is compared with its solo output; "
             "non-trivial = a (conversion, iteration-order) pair whose order differs from seed 0's, or a sequence of "
             "length >= 2; distinct = distinct (conversion, order) pairs and distinct sequences")
     assumptions = ("PYTHONHASHSEED influences doctrans only through set / dict-key-view iteration order of parameter names",
@@ -125,6 +135,19 @@ class C12(core.Check):
             facts = {"part": "history", "conv": HIST_ALPHABET[i], "after": ">".join(HIST_ALPHABET[j] for j in seq[:pos]) or "<fresh>"}
             sites.append(site(outs[pos] == self._solo[i], facts, fail="differs_from_solo", got=outs[pos], solo=self._solo[i]))
         return sites, (seq if len(seq) > 1 else None), [seq, outs]
+
+    def replay(self, rec):
+        """History cases re-run their sequence; seed sites re-run the battery under seeds 0..63 for that conversion."""
+        if rec.get("facts", {}).get("part") != "seed":
+            return [s for s in self.run_case(rec["case"])[0] if not s["ok"]]
+        cid = rec["facts"]["conv"]
+        ref = run_battery(0, self.k_max())[1]
+        out = []
+        for s in range(1, 64):
+            order, res = run_battery(s, self.k_max())
+            if res.get(cid) != ref.get(cid):
+                out.append(site(False, rec["facts"], fail="differs_from_seed0", got=res.get(cid), ref=ref.get(cid)))
+        return out
 
     # ---------------------------------------------------------------- seeds
     def execute(self, pool):
